@@ -28,7 +28,12 @@
                announced entries of its target (all, for "*"); a single-target
                stream ends with status OK right after the whole-target delete;
                an ended stream receives nothing; "*" streams are not ended;
-               subscribing to an unknown name is NotFound;
+               subscribing to an unknown name is NotFound; subscribers on a path
+               below the target get exactly the entries match.Match offers them
+               (and every whole-target delete), whatever other subscribers of
+               the target have connected or disconnected; a subscriber with a
+               backlog (Send blocked) gets, once released, the queued updates,
+               then the deletes, and ends cleanly / stays open as above;
         tag 12 known finding (DESIGN 7.20 / fixes/C14_1): the only thing wrong
                after a Reset is latestTimestamp = time.Time{}.UnixNano().
     Definitions only. *)
@@ -259,36 +264,67 @@ Definition kp_views (ob : mobs) : bool :=
 
 (** * tag 6: subscribers *)
 
-(** what K_P remembers about a subscriber: its target and its last status *)
-Definition ksub := (string * sstat)%type.
+(** what K_P remembers about a subscriber: target, subscription path, last
+    status; and, while the subscribers' Send is blocked, everything announced
+    since (their backlog) *)
+Definition ksub := (string * path * sstat)%type.
+Definition kstate := (list ksub * option (list notif))%type.
 
 Definition kp_sub_one (feed : list notif) (ks : ksub) (g : list sresp * sstat) : bool :=
   match snd ks with
   | SRunning =>
-      let '(out, e) := stream_feed (fst ks) feed in
+      let '(out, e) := stream_feed (fst (fst ks)) (snd (fst ks)) feed in
       list_eqb sresp_eqb out (fst g) &&
       sstat_eqb (snd g) (if e then SEndedOk else SRunning)
   | st => is_nil (fst g) && sstat_eqb (snd g) st
   end.
 
-Definition kp_subs (prev : list (string * tobs)) (ksubs : list ksub) (o : mop) (ob : mobs) : bool :=
+(** nothing is delivered and no RPC returns while Send is blocked *)
+Definition kp_sub_quiet (ks : ksub) (g : list sresp * sstat) : bool :=
+  is_nil (fst g) && sstat_eqb (snd g) (snd ks).
+
+Definition kp_new_sub (prev : list (string * tobs)) (T : string) (g : list sresp * sstat) : bool :=
+  if known_before prev T then list_eqb sresp_eqb (fst g) [SSync] && sstat_eqb (snd g) SRunning
+  else is_nil (fst g) && sstat_eqb (snd g) SNotFound.
+
+Definition kp_subs (prev : list (string * tobs)) (kst : kstate) (o : mop) (ob : mobs) : bool :=
+  let ksubs := fst kst in
   let n := List.length ksubs in
-  forallb (fun x => kp_sub_one (o_feed ob) (fst x) (snd x)) (combine ksubs (firstn n (o_subs ob))) &&
+  let olds := combine ksubs (firstn n (o_subs ob)) in
+  match snd kst, o with
+  | Some acc, MUngate =>
+      (* the backlog is delivered: queued updates, then the deletes Reset / Remove
+         announced; a single-target stream ends cleanly right after the
+         whole-target delete, the others stay open *)
+      forallb (fun x => kp_sub_one (acc ++ o_feed ob) (fst x) (snd x)) olds &&
+      Nat.eqb (List.length (o_subs ob)) n
+  | Some _, _ => forallb (fun x => kp_sub_quiet (fst x) (snd x)) olds && Nat.eqb (List.length (o_subs ob)) n
+  | None, _ =>
   match o with
-  | MSub T =>
+  | MUnsub i =>
+      (* the disconnected subscriber's RPC returns Canceled; the others go on *)
+      forallb (fun x => let '(k, ks, g) := x in
+                        if Nat.eqb k i
+                        then match snd ks with
+                             | SRunning => sstat_eqb (snd g) SCanceled
+                             | st => sstat_eqb (snd g) st
+                             end
+                        else kp_sub_one (o_feed ob) ks g)
+              (combine (combine (seq 0 n) ksubs) (firstn n (o_subs ob))) &&
+      Nat.eqb (List.length (o_subs ob)) n
+  | _ =>
+  forallb (fun x => kp_sub_one (o_feed ob) (fst x) (snd x)) olds &&
+  match o with
+  | MSub T | MSubP T _ =>
       match skipn n (o_subs ob) with
-      | [g] =>
-          let known := if String.eqb T "*" then true
-                       else match assoc T prev with Some b => to_has b | None => false end in
-          if known then list_eqb sresp_eqb (fst g) [SSync] && sstat_eqb (snd g) SRunning
-          else is_nil (fst g) && sstat_eqb (snd g) SNotFound
+      | [g] => kp_new_sub prev T g
       | _ => false
       end
   | MSubWalk _ T _ =>
       match skipn n (o_subs ob) with
       | [g] =>
           if known_before prev T then
-            let '(out, e) := stream_feed T (o_feed ob) in
+            let '(out, e) := stream_feed T [] (o_feed ob) in
             if e then
               (* the stream ends cleanly right after the whole-target delete *)
               list_eqb sresp_eqb (fst g) out && sstat_eqb (snd g) SEndedOk
@@ -309,20 +345,30 @@ Definition kp_subs (prev : list (string * tobs)) (ksubs : list ksub) (o : mop) (
       | _ => false
       end
   | _ => Nat.eqb (List.length (o_subs ob)) n
+  end
+  end
   end.
 
-Definition ksubs_next (ksubs : list ksub) (o : mop) (ob : mobs) : list ksub :=
+Definition ksubs_next (kst : kstate) (o : mop) (ob : mobs) : kstate :=
+  let ksubs := fst kst in
   let n := List.length ksubs in
-  map (fun x => (fst (fst x), snd (snd x))) (combine ksubs (firstn n (o_subs ob))) ++
-  match o with
-  | MSub T | MSubWalk _ T _ =>
-      match skipn n (o_subs ob) with g :: _ => [(T, snd g)] | [] => [(T, SEndedErr)] end
-  | _ => []
-  end.
+  (map (fun x => (fst (fst x), snd (snd x))) (combine ksubs (firstn n (o_subs ob))) ++
+   match o with
+   | MSub T | MSubWalk _ T _ =>
+       match skipn n (o_subs ob) with g :: _ => [(T, [], snd g)] | [] => [(T, [], SEndedErr)] end
+   | MSubP T q =>
+       match skipn n (o_subs ob) with g :: _ => [(T, q, snd g)] | [] => [(T, q, SEndedErr)] end
+   | _ => []
+   end,
+   match o with
+   | MGate => match snd kst with None => Some [] | x => x end
+   | MUngate => None
+   | _ => option_map (fun acc => acc ++ o_feed ob) (snd kst)
+   end).
 
 (** * K_P of one step *)
 
-Definition kp_step (prev : list (string * tobs)) (ksubs : list ksub) (o : mop) (ob : mobs) : list N :=
+Definition kp_step (prev : list (string * tobs)) (ksubs : kstate) (o : mop) (ob : mobs) : list N :=
   (if kp_isolation prev o ob then [] else [2%N]) ++
   kp_reset prev o ob ++
   (if kp_remove prev o ob then [] else [4%N]) ++
@@ -335,7 +381,7 @@ Definition kp_step (prev : list (string * tobs)) (ksubs : list ksub) (o : mop) (
 
 (** * Verdicts *)
 
-Fixpoint check_from (i : nat) (s : mstate) (prev : list (string * tobs)) (ksubs : list ksub)
+Fixpoint check_from (i : nat) (s : mstate) (prev : list (string * tobs)) (ksubs : kstate)
   (l : list (mop * mobs)) : list (nat * N) :=
   match l with
   | [] => []
@@ -353,7 +399,7 @@ Definition check_init (s : mstate) (init : list (string * tobs)) : list (nat * N
 Definition check_case (cs : mcase) : list (nat * N) :=
   let '(cfg, names, init, l) := cs in
   let s := minit cfg names in
-  check_init s init ++ check_from 0 s init [] l.
+  check_init s init ++ check_from 0 s init ([], None) l.
 
 (** * Atomicity of [mutate; announce] (concurrent family)
 
